@@ -97,19 +97,84 @@ def judgeObs (lim : Limits) (toks : List String) : List String :=
   judgeNums lim { ticks := get "ticks", maxcsp := get "maxcsp", maxsp := get "maxsp", csp := get "csp", sp := get "sp",
                   maxtouch := (kvOf toks "maxtouch").getD (-1) }
 
+/-- the constructors the harness can be asked for (`sz <name> <args>`, harness/mudlib/c04/sizes.c) -/
+inductive Ctor
+  | allocate | aggregate | add_array | add_array_self | slice | explode | explode0 | allocate_buffer
+  | add_buffer | map_insert | map_aggregate | map_add | join | join_eq | join_self | join_num
+  | num_join | repeat_ | implode | replace | replace1 | copy_array | copy_mapping | sort_array
+  | map_array | lower_case | filter_array | unique_array | array_sub | array_and | filter_mapping | map_mapping
+  | keys | values | allocate_mapping | map_compose | map_compose_eq | save_array | save_string | save_mapping
+  | save_nested | copy_nested | restore_nested | restore_array | restore_mapping | regexp | reg_assoc | sprintf_pad
+  | sprintf
+  deriving Repr, DecidableEq
+
+def Ctor.ofName (s : String) : Option Ctor :=
+  match s with
+  | "allocate" => some .allocate
+  | "aggregate" => some .aggregate
+  | "add_array" => some .add_array
+  | "add_array_self" => some .add_array_self
+  | "slice" => some .slice
+  | "explode" => some .explode
+  | "explode0" => some .explode0
+  | "allocate_buffer" => some .allocate_buffer
+  | "add_buffer" => some .add_buffer
+  | "map_insert" => some .map_insert
+  | "map_aggregate" => some .map_aggregate
+  | "map_add" => some .map_add
+  | "join" => some .join
+  | "join_eq" => some .join_eq
+  | "join_self" => some .join_self
+  | "join_num" => some .join_num
+  | "num_join" => some .num_join
+  | "repeat" => some .repeat_
+  | "implode" => some .implode
+  | "replace" => some .replace
+  | "replace1" => some .replace1
+  | "copy_array" => some .copy_array
+  | "copy_mapping" => some .copy_mapping
+  | "sort_array" => some .sort_array
+  | "map_array" => some .map_array
+  | "lower_case" => some .lower_case
+  | "filter_array" => some .filter_array
+  | "unique_array" => some .unique_array
+  | "array_sub" => some .array_sub
+  | "array_and" => some .array_and
+  | "filter_mapping" => some .filter_mapping
+  | "map_mapping" => some .map_mapping
+  | "keys" => some .keys
+  | "values" => some .values
+  | "allocate_mapping" => some .allocate_mapping
+  | "map_compose" => some .map_compose
+  | "map_compose_eq" => some .map_compose_eq
+  | "save_array" => some .save_array
+  | "save_string" => some .save_string
+  | "save_mapping" => some .save_mapping
+  | "save_nested" => some .save_nested
+  | "copy_nested" => some .copy_nested
+  | "restore_nested" => some .restore_nested
+  | "restore_array" => some .restore_array
+  | "restore_mapping" => some .restore_mapping
+  | "regexp" => some .regexp
+  | "reg_assoc" => some .reg_assoc
+  | "sprintf_pad" => some .sprintf_pad
+  | "sprintf" => some .sprintf
+  | _ => none
+
 /-- which limit bounds the result of a constructor -/
-def limitOf (lim : Limits) (ctor : String) : Int :=
-  match ctor with
-  | "allocate" | "aggregate" | "add_array" | "add_array_self" | "slice" | "explode" | "explode0"
-  | "copy_array" | "sort_array" | "map_array" | "filter_array" | "unique_array" | "array_sub" | "array_and"
-  | "keys" | "values" | "regexp" | "reg_assoc" | "restore_array" => lim.maxArray
-  | "allocate_buffer" | "add_buffer" => lim.maxBuffer
-  | "map_insert" | "map_aggregate" | "map_add" | "copy_mapping" | "allocate_mapping" | "filter_mapping" | "map_mapping"
-  | "map_compose" | "map_compose_eq" | "restore_mapping" => lim.maxMapping
+def limitOfC (lim : Limits) : Ctor → Int
+  | .allocate | .aggregate | .add_array | .add_array_self | .slice | .explode | .explode0 | .copy_array | .sort_array | .map_array | .filter_array | .unique_array | .array_sub | .array_and | .keys | .values | .regexp | .reg_assoc | .restore_array => lim.maxArray
+  | .allocate_buffer | .add_buffer => lim.maxBuffer
+  | .map_insert | .map_aggregate | .map_add | .copy_mapping | .allocate_mapping | .filter_mapping | .map_mapping | .map_compose | .map_compose_eq | .restore_mapping => lim.maxMapping
   -- nesting depths reported by the LPC side: bounded by MAX_SAVE_SVALUE_DEPTH (copy) / by the text length (restore)
-  | "copy_nested" => (NV.Gen.C04.maxSaveDepth : Int)
-  | "restore_nested" => lim.maxString
+  | .copy_nested => (NV.Gen.C04.maxSaveDepth : Int)
   | _ => lim.maxString
+
+/-- by name, as the line judge needs it (a name that is not a constructor is judged as a string) -/
+def limitOf (lim : Limits) (ctor : String) : Int :=
+  match Ctor.ofName ctor with
+  | some c => limitOfC lim c
+  | none => lim.maxString
 
 /-- result of a mapping operation sequence, `"<flags>:<sizeof>/<nodes>"`: what sizeof () reports is what the mapping
     holds, and that is within the limit (other returned values are not judged) -/
